@@ -61,6 +61,9 @@ func ExtraC15(tier string) func(sc *core.Scratch, ev *core.Evidence, rep *core.R
 		cases = append(cases, al...)
 		for _, c := range cases {
 			c.Install = "zz_moq_generated.go"
+			if len(c.Cfg.Args) > 1 && c.Repeat < 6 {
+				c.Repeat = 6 // several interfaces in one run: whatever order they are worked on, the bytes are the same
+			}
 		}
 		// shape of KF-11, defined by the models: feed the aliases the model
 		// predicts for the first output back as harvested source aliases; if the
@@ -274,6 +277,31 @@ func ExtraC08(tier string) func(sc *core.Scratch, ev *core.Evidence, rep *core.R
 		cases = append(cases, CorpusRaw(seed, tier)...)
 		cases = append(cases, CorpusGenerics(seed, tier)...)
 		v, _, err := EvaluateCases("C08", "C08static", cases, sc, ev, rep)
+		if err != nil {
+			return 2, err
+		}
+		if v > 0 {
+			return 1, nil
+		}
+		return 0, nil
+	}
+}
+
+// ExtraC06: the static half of C06 on the generator corpora (in particular the
+// interfaces with unexported methods, which only an in-package caller can use
+// and the run-time driver therefore cannot reach).
+func ExtraC06(tier string) func(sc *core.Scratch, ev *core.Evidence, rep *core.Reporter) (int, error) {
+	return func(sc *core.Scratch, ev *core.Evidence, rep *core.Reporter) (int, error) {
+		seed := core.Seed()
+		var cases []*Case
+		for _, l := range [][]*Case{CorpusFlags(seed, tier), CorpusRaw(seed, tier), CorpusMulti(seed, tier)} {
+			for _, c := range l {
+				d := *c
+				d.Judge, d.RunFmts, d.Solo = []string{"C06"}, false, false
+				cases = append(cases, &d)
+			}
+		}
+		v, _, err := EvaluateCases("C06", "C06static", cases, sc, ev, rep)
 		if err != nil {
 			return 2, err
 		}
